@@ -265,6 +265,11 @@ fn rtu_server_scenario(min_ms: u64, max_ms: u64) -> Result<usize, String> {
         d = std::cmp::min(d * 2, max);
     }
     std::thread::sleep(total + Duration::from_millis(30));
+    // on a loaded machine the attempts may lag: wait until five of them were announced
+    let t_wait = std::time::Instant::now();
+    while crate::trace::count_global_timed("retrying in ") < 5 && t_wait.elapsed() < Duration::from_secs(8) {
+        std::thread::sleep(Duration::from_millis(10));
+    }
     // phase 2: the port appears
     let mut pty = Pty::open()?;
     std::os::unix::fs::symlink(&pty.slave_path, &link).map_err(|e| format!("INFRA: {}", e))?;
@@ -288,6 +293,12 @@ fn rtu_server_scenario(min_ms: u64, max_ms: u64) -> Result<usize, String> {
     pty.close_master();
     drop(pty);
     std::thread::sleep(min * 3 + max + Duration::from_millis(60));
+    let t_wait = std::time::Instant::now();
+    while (crate::trace::count_global_timed("to reopen port") < 1 || crate::trace::count_global_timed("retrying in ") < 7)
+        && t_wait.elapsed() < Duration::from_secs(8)
+    {
+        std::thread::sleep(Duration::from_millis(10));
+    }
     let records = crate::trace::take_global_timed();
     crate::trace::capture_global(false);
     let _ = rt.block_on(async { tokio::time::timeout(Duration::from_secs(2), handle.shutdown()).await });
